@@ -300,6 +300,31 @@ func VerifHarness_KeyTreeHistory() {
 		ch, _ := st.Slot(acct, &other, nil, r.tid)
 		verifAssert(ch == nil, "C11: a refused change modifies nothing")
 	}
+	// an offset beyond 31 (any 256-bit value) is refused for registered slots too, by the
+	// journal call, the registration call and the lookup alike, and changes nothing
+	bad := verifU256("badoffset")
+	if bad.GtUint64(31) {
+		verifReach("bad-offset")
+		before := 0
+		if c := st.Variable(acct, string(r.name)); c != nil {
+			for _, l := range c.Changes() {
+				before += len(l)
+			}
+		}
+		err := tr.SaveStateChange(acct, &r.slot, &bad, r.tid, []byte{0x5a})
+		verifAssert(err != nil, "C11: a change at an offset beyond 31 is refused")
+		err = tr.SaveStateKey(acct, nil, &r.slot, &bad, r.tid, common.Hash{}, []byte("zz"))
+		verifAssert(err != nil, "C11: a registration at an offset beyond 31 is refused")
+		_, err = st.Slot(acct, &r.slot, &bad, r.tid)
+		verifAssert(err != nil, "C11: a lookup at an offset beyond 31 is refused")
+		after := 0
+		if c := st.Variable(acct, string(r.name)); c != nil {
+			for _, l := range c.Changes() {
+				after += len(l)
+			}
+		}
+		verifAssert(after == before && st.FindKeyIndices(acct, "zz") == nil, "C11: a refused change or registration modifies nothing")
+	}
 }
 
 func init() {
